@@ -4,7 +4,7 @@ from props.common import *  # noqa: F401,F403
 
 FUNCTIONS = [f"{G}:BaseGHE._simulate_detailed", f"{G}:GHE.simulate#hybrid-body", f"{G}:GHE.simulate#hourly-body-fresh",
              f"{G}:GHE.simulate#hourly-body-after-another-simulation", f"{G}:GHE.simulate#hourly-body-array-loads", f"{G}:BaseGHE.cost"]
-NATIVE_FUNCTIONS = [f"{G}:BaseGHE._simulate_detailed", f"{G}:GHE.simulate"]
+NATIVE_FUNCTIONS = [f"{G}:BaseGHE._simulate_detailed", f"{G}:GHE.simulate", f"{G}:BaseGHE.cost"]
 NATIVE_CASES = {"quick": 60, "thorough": 3000}
 NATIVE_LIMIT_S = {"quick": 45, "thorough": 1500}
 CASE_TIMEOUT = 200
